@@ -150,6 +150,7 @@ func (ss *StructureSlot) Place(s *slip.Scope, args slip.List, value slip.Object)
 	if ss.readOnly {
 		slip.ErrorPanic(s, 0, "cannot setf read-only slot")
 	}
+	slip.CheckArgCount(s, 0, ss, args, 1, 1)
 	obj, ok := args[0].(*StructureObject)
 	if !ok {
 		slip.TypePanic(s, 0, "structure", args[0], ss.name)
